@@ -324,6 +324,10 @@ func runConn(c ConnCase, k *ev.Case) *ev.Failure {
 	if !c.Outage {
 		for _, r := range ups {
 			m, err := storage.List(context.Background(), r.up.ID)
+			for dl := time.Now().Add(2 * time.Second); err == nil && len(m) != 0 && time.Now().Before(dl); {
+				time.Sleep(time.Millisecond) // the acks are on their way through the client's dispatching
+				m, err = storage.List(context.Background(), r.up.ID)
+			}
 			if err == nil && len(m) != 0 {
 				return ev.Failf("C07.3 storage-isolation", "every chunk of %s was acknowledged, yet its sent storage still holds %d chunk(s)", r.name, len(m)).WithHistory(hist())
 			}
